@@ -684,6 +684,13 @@ def run(rep):
         for name in names:
             check_gpd(name, x, eta, t, Q2, 'gk-oracle', cls)
         ref.cache.clear()
+        if rng.random() < 0.3:
+            # the same (x, eta, t) at ANOTHER scale right afterwards, on the same model object
+            Q2b = rng.uniform(2, 40)
+            if abs(alpha_sea(t, Q2b) - 1) > 0.03:
+                for name in names:
+                    check_gpd(name, x, eta, t, Q2b, 'gk-oracle', cls + '/second-scale')
+                ref.cache.clear()
 
     # ================= gk-symmetry on the real code =================
     ns = 150 if quick else 3000
